@@ -123,6 +123,15 @@ CLAIMS = {
          "pencil value through dual coordinates, invariance under the matrix pool and cr(a,b,c,harmonic) = -1; geometer's values, "
          "harmonic points and NotCollinear/NotConcurrent are compared, singles, scaled representatives and collections.",
     design="5/C11", technique="TLC enumeration of parameter quadruples and pencils with a rational cross-ratio oracle + replay"),
+ "C13": dict(
+    text="C13_QuadricCtors.tla gives the exact integer matrix (up to scale) of the conic through five points (bracket formula; "
+         "also the cross-ratio form), of circles/ellipses/spheres at lattice centres with rational radii and of cones/cylinders "
+         "with lattice vertices, rational radii and axis directions in all octants, from the Cartesian locus polynomials; TLC "
+         "certifies that the five points, rational rim points from orthogonal integer frames with Pythagorean angles, the apex / "
+         "the axis point at infinity (singular point) satisfy them; geometer's matrices are compared as classes, contains() on "
+         "the exact on/off probe sets, and center/radius/foci/area/volume read-backs; from_tangent/from_foci are checked through "
+         "the stated relation (incidence, tangency and isotropic tangents evaluated by the harness in complex arithmetic).",
+    design="5/C13", technique="TLC enumeration of defining data with exact locus matrices + replay (classes, probes, relations)"),
 }
 
 checks = []
